@@ -3,8 +3,9 @@
 (* C08.  Entropy sources of the library and who may consume them.          *)
 (*                                                                         *)
 (* Sources: py (Python's random module), np (NumPy's legacy global         *)
-(* RandomState = pybrops global_prng), os (operating-system entropy: what  *)
-(* numpy.random.default_rng(None) draws), and explicit generators g.       *)
+(* RandomState = pybrops global_prng), os (anything outside the program's  *)
+(* control: operating-system entropy as drawn by default_rng(None), or the *)
+(* content of uninitialised memory), and explicit generators g.            *)
 (* A source's state is an abstract coordinate <<origin, position>>: two    *)
 (* sources with the same coordinate produce the same bits.  The result of  *)
 (* a stochastic call is the tuple of coordinates it consumed -- the        *)
